@@ -237,9 +237,9 @@ fn case_strategy() -> impl Strategy<Value = Case> {
         proptest::collection::vec(-3.0f64..3.0, 12),
         proptest::collection::vec(deriv(), 12 * 8),
         proptest::collection::vec(deriv(), 12),
-        (any::<u8>(), any::<bool>(), prop::bool::weighted(0.3), prop::sample::select(vec![0u8, 0, 1, 1, 2]), prop::bool::weighted(0.15), scale_exp(), scale_exp(), prop::bool::weighted(0.2)),
+        (any::<u8>(), any::<bool>(), prop::bool::weighted(0.3), prop::sample::select(vec![0u8, 0, 1, 1, 2]), prop::bool::weighted(0.15), scale_exp(), scale_exp(), prop::bool::weighted(0.2), proptest::option::weighted(0.3, any::<u8>())),
     )
-        .prop_map(|(mode, n, extra, l, u, d, pseed, xrows, b, da, db, (perm_rot, perm_rev, identity_l, layout, square_lsq, a_exp, b_exp, small_ints))| {
+        .prop_map(|(mode, n, extra, l, u, d, pseed, xrows, b, da, db, (perm_rot, perm_rev, identity_l, layout, square_lsq, a_exp, b_exp, small_ints, dup_row))| {
             let cols = if extra > 0 { n.min(6) } else { n };
             let rows = cols + extra;
             // least squares is also allowed (and then used) on a square system
@@ -285,16 +285,31 @@ fn case_strategy() -> impl Strategy<Value = Case> {
             // speaks of well-conditioned systems.)
             let (sa, sb) = (2f64.powi(a_exp), 2f64.powi(b_exp));
             let scaled = |d: &Deriv, s: f64| Deriv { grad: d.grad.iter().map(|(n, c)| (*n, Fl(c.0 * s))).collect(), hess: d.hess.iter().map(|(i, j, c)| (*i, *j, Fl(c.0 * s))).collect(), rot: d.rot, as_float: d.as_float };
-            let a: Vec<Fl> = order.iter().flat_map(|r| rows_v[*r].iter().map(|x| Fl(*x * sa)).collect::<Vec<_>>()).collect();
+            let mut a: Vec<Fl> = order.iter().flat_map(|r| rows_v[*r].iter().map(|x| Fl(*x * sa)).collect::<Vec<_>>()).collect();
+            let mut b: Vec<Fl> = b[..rows].iter().map(|x| Fl(*x * sb)).collect();
+            let mut da: Vec<Deriv> = da[..rows * cols].iter().map(|d| scaled(d, sa)).collect();
+            let mut db: Vec<Deriv> = db[..rows].iter().map(|d| scaled(d, sb)).collect();
+            // a repeated observation: in a tall system one equation (row of A, entry of b, derivative
+            // content included) is repeated verbatim in the row directly after it. In least squares it
+            // carries double weight; the normal-equations oracle below handles that as it stands.
+            if let (Some(r), true) = (dup_row, extra > 0 && rows >= 3) {
+                let r = r as usize % (rows - 1);
+                for j in 0..cols {
+                    a[(r + 1) * cols + j] = a[r * cols + j];
+                    da[(r + 1) * cols + j] = da[r * cols + j].clone();
+                }
+                b[r + 1] = b[r];
+                db[r + 1] = db[r].clone();
+            }
             Case {
                 mode,
                 rows,
                 cols,
                 lsq,
                 a,
-                b: b[..rows].iter().map(|x| Fl(*x * sb)).collect(),
-                da: da[..rows * cols].iter().map(|d| scaled(d, sa)).collect(),
-                db: db[..rows].iter().map(|d| scaled(d, sb)).collect(),
+                b,
+                da,
+                db,
                 perm_rot,
                 perm_rev,
                 layout,
@@ -511,6 +526,8 @@ impl Property for C13 {
         v.label(["layout:row-major", "layout:column-major", "layout:strided"][(c.layout % 3) as usize]);
         v.label_if(c.lsq, "least-squares");
         v.label_if(c.lsq && c.rows == c.cols, "least-squares:square-system");
+        let dup = (0..c.rows.saturating_sub(1)).any(|r| (0..c.cols).all(|j| c.a[r * c.cols + j].0 == c.a[(r + 1) * c.cols + j].0) && c.b[r].0 == c.b[r + 1].0);
+        v.label_if(c.lsq && c.rows > c.cols && dup, "least-squares:repeated-adjacent-equation");
         let amax = c.a.iter().fold(0.0f64, |m, x| m.max(x.0.abs()));
         v.label_if(amax < 1e-9, "scale:tiny-matrix");
         v.label_if(amax > 1e9, "scale:huge-matrix");
@@ -660,7 +677,7 @@ impl Property for C13 {
     }
 
     fn rule(&self) -> String {
-        "random systems: square 1-8 (least squares allowed on 15% of them) and tall up to 14x6 (least squares), real parts built as (unit lower, or identity) x (sparse upper with |diagonal| in [0.5,2]) with the rows shuffled so that zeros land on the diagonal and partial pivoting must swap (also in later columns); a fifth of the systems have small integer entries (exact pivot ties, multipliers of exactly +-1); A (values and derivative content) and b are each scaled by an exact power of two (1 in 75% of draws, otherwise 2^+-35..70); A and b are handed over as row-major, column-major (transposed view, as numpy's A.T arrives) or strided views; entries lifted to derivative content over 3 names with differing variable orders; element types dsolve::<f64|Dual|Dual2|Number> (Number mixes floats with one dual kind in A and b) and fdsolve with b of f64|Dual|Dual2. Oracle: the returned x, read by name, must satisfy A0 x0 = b0, A0 x_k + A_k x0 = b_k and A_kl x0 + A_k x_l + A_l x_k + A0 x_kl = b_kl (for least squares the same identities for A^T A x = A^T b) with residuals <= 1e-9 x cond x sum of absolute terms; solving the row-permuted system gives the same x. Draws with cond >= 1e6 are skipped and counted. Non-trivial: n >= 2, a row swap is needed, and a non-zero derivative is present.".into()
+        "random systems: square 1-8 (least squares allowed on 15% of them) and tall up to 14x6 (least squares; in 30% of them one equation is repeated verbatim in the next row), real parts built as (unit lower, or identity) x (sparse upper with |diagonal| in [0.5,2]) with the rows shuffled so that zeros land on the diagonal and partial pivoting must swap (also in later columns); a fifth of the systems have small integer entries (exact pivot ties, multipliers of exactly +-1); A (values and derivative content) and b are each scaled by an exact power of two (1 in 75% of draws, otherwise 2^+-35..70); A and b are handed over as row-major, column-major (transposed view, as numpy's A.T arrives) or strided views; entries lifted to derivative content over 3 names with differing variable orders; element types dsolve::<f64|Dual|Dual2|Number> (Number mixes floats with one dual kind in A and b) and fdsolve with b of f64|Dual|Dual2. Oracle: the returned x, read by name, must satisfy A0 x0 = b0, A0 x_k + A_k x0 = b_k and A_kl x0 + A_k x_l + A_l x_k + A0 x_kl = b_kl (for least squares the same identities for A^T A x = A^T b) with residuals <= 1e-9 x cond x sum of absolute terms; solving the row-permuted system gives the same x. Draws with cond >= 1e6 are skipped and counted. Non-trivial: n >= 2, a row swap is needed, and a non-zero derivative is present.".into()
     }
 
     fn floors(&self, tier: Tier) -> Vec<Floor> {
@@ -671,6 +688,7 @@ impl Property for C13 {
             Floor { label: "pivot:zero-on-diagonal", min: n / 10 },
             Floor { label: "least-squares", min: n / 10 },
             Floor { label: "least-squares:square-system", min: n / 20 },
+            Floor { label: "least-squares:repeated-adjacent-equation", min: n / 50 },
             Floor { label: "scale:tiny-matrix", min: n / 20 },
             Floor { label: "scale:huge-matrix", min: n / 20 },
             Floor { label: "entries:small-integers", min: n / 100 },
